@@ -44,6 +44,9 @@ type Hooks struct {
 	// non-constant haystack is modelled; prev is the live result of an earlier
 	// execution of the same call in this state (nil if none).
 	OnSearch func(e *Engine, st *State, fr *Frame, call *ssa.Call, prev *Hit, cur Hit)
+	// OnHeadEdge fires (final pass) for every state that reaches a loop head, before
+	// it is joined with the others: from outside the loop (back = false) or round the loop.
+	OnHeadEdge func(e *Engine, st *State, fr *Frame, from, head *ssa.BasicBlock, back bool)
 	// OnScan fires for every other library call that receives a non-constant string
 	// (it may look at all of it).
 	OnScan func(e *Engine, st *State, fr *Frame, call *ssa.Call, s StrV)
